@@ -895,6 +895,9 @@ func (ec *evalCtx) location(e spec.Expr) (key string, ref *smt.Term, vs smt.Sort
 			case LField:
 				return v.Loc.Key, v.Loc.Base, sortOfKind(kindOf(elem))
 			}
+		case "fields":
+			// handled by the caller (expands to every field of the pointed-to struct)
+			ec.fail("fields(x) is only allowed directly in an assigns clause")
 		case "mapof":
 			v := ec.eval(x.Args[0])
 			mt := v.GoT.Underlying().(*types.Map)
@@ -931,3 +934,32 @@ func (ec *evalCtx) location(e spec.Expr) (key string, ref *smt.Term, vs smt.Sort
 }
 
 var _ = fmt.Sprintf
+
+// fieldLocations expands assigns fields(x) into one location per field of the struct x points to.
+func (ec *evalCtx) fieldLocations(e spec.Expr) (keys []string, ref *smt.Term, sorts []smt.Sort, ok bool) {
+	c, isCall := e.(*spec.Call)
+	if !isCall || c.Fun != "fields" || len(c.Args) != 1 {
+		return nil, nil, nil, false
+	}
+	base := ec.eval(c.Args[0])
+	if base.GoT == nil {
+		ec.fail("fields(%s): no Go type", c.Args[0])
+	}
+	t := base.GoT
+	if p, isP := t.Underlying().(*types.Pointer); isP {
+		t = p.Elem()
+	}
+	st, isS := t.Underlying().(*types.Struct)
+	if !isS {
+		ec.fail("fields(%s): not a struct", c.Args[0])
+	}
+	for i := 0; i < st.NumFields(); i++ {
+		k, ft := ec.fc.fieldKey(t, i)
+		if kindOf(ft) == KStruct || kindOf(ft) == KArray || kindOf(ft) == KStrArr {
+			continue
+		}
+		keys = append(keys, k)
+		sorts = append(sorts, sortOfKind(kindOf(ft)))
+	}
+	return keys, ec.scalar(base, e), sorts, true
+}
